@@ -204,6 +204,7 @@ def run(case):
         warnings.simplefilter('always')    # recorded, not printed; never 'ignore': dependencies inspect warnings
         try:
             store = case['store']
+            S.begin_building()
             if store == 'new_tuple':
                 ds = lazy_dataset.new(orig)
             elif store == 'new_json':
@@ -233,6 +234,7 @@ def run(case):
                 else:
                     tmp = tempfile.mkdtemp(prefix='c09_')
                     ds = base.diskcache(cache_dir=tmp + '/cache', reuse=False, clear=True)
+            S.end_building()
 
             def check(i, v, path):
                 nv = W.norm(v[1] if path == 'items' else v)
@@ -405,6 +407,7 @@ def run(case):
                     fired['original_container_mutation'] = fired.get('original_container_mutation', 0) + 1
                     probes['original_container_mutated'] = 1
         finally:
+            S.end_building()
             try:
                 import diskcache as _dc2
                 from . import c11 as _c112
